@@ -104,7 +104,11 @@ Definition sys_step (c : scfg) (s : sys) (m : smsg) : sys * bool :=
       match find_w (l2 s) m with
       | Some w =>
           match lift1 c s e (claim_of c s sender idx lo hi v bh w) with
-          | (s', true) => ({| l1 := l1 s'; l2 := l2 s'; paid := m :: paid s'; donated := donated s' |}, true)
+          | (s', true) =>
+              (* a withdrawal addressed to the escrow itself stays in the escrow: a donation *)
+              let dn := if bool_decide (L1.resolve (c1 c) (L2.w_to w) = Some (escrow_of c))
+                        then (L2.w_base w, L2.w_amt w) :: donated s' else donated s' in
+              ({| l1 := l1 s'; l2 := l2 s'; paid := m :: paid s'; donated := dn |}, true)
           | r => r
           end
       | None => (s, false)
